@@ -295,6 +295,15 @@ pub fn rel_case(c: &RelCase, obs: &mut Obs) -> PResult {
         obs.sample(&cls, || json!({"expr": format!("{this:?}.relative_to({reference:?})"), "result": format!("{r:?}")}));
     }
     ensure!(well_formed(&r), sig, "{this:?}.relative_to({reference:?}) = {r:?} is inverted");
+    if c.reference == c.this {
+        // the same interval as its own reference, passed as the very same object: nothing may depend on the address
+        let same_object = guard(|| this.relative_to(&this));
+        match same_object {
+            Ok(s2) => ensure!(interval_kind(&s2) == interval_kind(&r) && format!("{s2:?}") == format!("{r:?}"), sig, "{this:?}.relative_to(&itself) = {s2:?} but relative to an equal copy = {r:?}"),
+            Err(p) => return crate::engine::fail(sig, format!("{this:?}.relative_to(&itself) panicked: {p}")),
+        }
+        obs.class("relative_to/same-object");
+    }
     let rel = |x: f64, rr: f64| (x - rr) / rr;
     // members on the grid, one-sided ones out to EXT
     let mem = |m: &MI| -> Vec<f64> {
